@@ -20,8 +20,12 @@ where
         true => seq_map_col(iter, map, collected),
         false => {
             let offset = collected.len();
+            // a partially written bag must not be dropped while unwinding from a panicking closure:
+            // its drop would treat never-written positions as initialized
+            let collected = std::mem::ManuallyDrop::new(collected);
             let task = |c| task(&iter, &map, &collected, offset, c);
             let _num_spawned = Runner::run(params, ParTask::Collect, &iter, &task);
+            let collected = std::mem::ManuallyDrop::into_inner(collected);
             unsafe { collected.into_inner().unwrap_only_if_counts_match() }
         }
     }
